@@ -176,8 +176,9 @@ func main() {
 	r.Rule("every case is one spend (pkScript, scriptSig, witness, tx, flags) executed by txscript.NewEngine+Execute and by refscript.VerifyScript; " +
 		"cases are enumerated exhaustively per layer (L1 all byte strings, L2 all token sequences x initial stacks x wrappings, L3 signature/key/dummy shape products, " +
 		"L4 exact-limit constructions, L5 lock-time grid, W witness-program shapes) x flag sets; a case is non-trivial when it is a distinct (layer, flags, scripts, witness) tuple")
+	r.Assume("labelled keys <sev>/deviation/<name>: the reference with exactly that emulated btcd deviation switched on (refscript/quirks.go) agrees with btcd on the case; the oracle itself always runs with no deviation enabled")
 	r.Assume("btcec ECDSA/Schnorr verification of a given 32-byte digest and secp256k1 point arithmetic are correct (subject of C11); SHA-256/SHA-1/RIPEMD-160 library implementations are correct")
-	r.Assume("refscript follows Bitcoin Core interpreter.cpp; it reproduces 100% of script_tests.json (non-macro cases), tx_valid.json, tx_invalid.json and taproot-ref vectors (checked at start of every run)")
+	r.Assume("refscript follows Bitcoin Core interpreter.cpp; it reproduces 100% of script_tests.json (incl. the 5 #SCRIPT#/#CONTROLBLOCK# taproot macro cases btcd skips), tx_valid.json, tx_invalid.json (BADTX sanity cases excluded: not script verification) and all taproot-ref success/failure vectors; checked at the start of every run, BROKEN-CHECK otherwise")
 	// Time box.  The machine is shared, so the quick tier is boxed by CPU time
 	// (9 CPU-minutes, i.e. < 40 s on 16 idle cores) with a generous wall limit;
 	// thorough by wall clock.
@@ -194,7 +195,8 @@ func main() {
 
 	t0 := time.Now()
 	var st vecStats
-	if os.Getenv("C06_SKIPVEC") == "" {
+	skipVec := os.Getenv("C06_SKIPVEC") != "" // development aid only
+	if !skipVec {
 		st = bindVectors(r)
 	}
 	r.Set("vectors_bound", map[string]int{"script_tests": st.scriptTests, "tx_valid_inputs": st.txValidInputs,
@@ -202,7 +204,7 @@ func main() {
 		"script_tests_taproot_macro_cases": st.taprootMacro, "skipped_tx_invalid_BADTX": st.skippedBadTx})
 	r.Set("t_vectors_s", time.Since(t0).Seconds())
 
-	exhaustive := true
+	exhaustive := !skipVec
 	only := os.Getenv("C06_LAYERS") // development aid: comma-separated layer names
 	// cheap, targeted layers first; the big enumerations last (they are the ones a
 	// time box may cut)
